@@ -1635,8 +1635,21 @@ func (wr *vfWRun) step(opi int, op vfOp) {
 		}
 		x = "C"
 	case 'R':
+		var before []vfMeta
+		for _, v := range wr.views {
+			before = append(before, v.reservePre())
+		}
 		err := wr.w.Remove(op.a, int32(op.b), int32(op.c))
 		x = "R:" + vfErrClass(err)
+		if err != nil && !wr.views[0].shadow.unsound {
+			for i, v := range wr.views {
+				if !v.metaSame(before[i]) {
+					// a wrapped removal that reports failure must not have been carried out in any wrapped cache (F29)
+					wr.views[0].l2("wrapper-remove-error-mutated-state", fmt.Sprintf("op %d (%s): WrapperCache.Remove returned %s after wrapped cache %d had carried the removal out", opi, op.String(), vfErrClass(err), i))
+					break
+				}
+			}
+		}
 		for _, v := range wr.views {
 			v.acctRemove(opi, op, err)
 		}
@@ -2360,7 +2373,7 @@ func vfEmit(out *zzverif.Out, cf vfConfig, ops []vfOp) {
 // real code on the three witness histories (Tie 1: the model variant is a fact regenerated from the
 // tree on every run).  Writes variant.txt: bit 1 = F14 repaired, 2 = F15b repaired, 4 = F23 repaired,
 // 8 = sliding-window capacity counts the batch per sequence (C07 F-SWA-capacity repaired), 16 = Remove is
-// atomic on error (F28 repaired).
+// atomic on error (F28 repaired), 32 = WrapperCache.Remove is atomic across the wrapped caches (F29 repaired).
 func TestVerifC06Probe(t *testing.T) {
 	run := func(line string) (r *vfRun, panicked bool) {
 		cf, ops, err := vfParseHistory(line)
@@ -2422,8 +2435,26 @@ func TestVerifC06Probe(t *testing.T) {
 			bits |= 16
 		}
 	}
+	// F29: a wrapped Remove refused by the second cache must not have been carried out in the first
+	witness[32] = "kw-x 1 0 1 2 8 8 1 1 1 0 0 8192 7 F 1 0 0 1 F 1 0 1 2 F 1 0 2 3 F 1 0 3 4 C 0 1 2 R 0 0 1 F 1 0 3 5"
+	{
+		cf, ops, err := vfParseHistory(witness[32])
+		if err != nil {
+			t.Fatal(err)
+		}
+		wr := vfNewWRun(cf.wrap, cf, nil, "", true)
+		for i, op := range ops[:6] {
+			wr.step(i, op)
+		}
+		for _, c := range wr.views[0].cache.cells {
+			if c.pos == 3 && slices.Contains(c.sequences, 0) {
+				bits |= 32 // the sliding-window cache still has position 3: the refused removal was not applied
+			}
+		}
+		wr.w.Close()
+	}
 	var wl []string
-	for _, b := range []int{1, 2, 4, 8, 16} {
+	for _, b := range []int{1, 2, 4, 8, 16, 32} {
 		wl = append(wl, fmt.Sprintf("%d\t%s", b, witness[b]))
 	}
 	if err := os.WriteFile(zzverif.OutDir()+"/witness.txt", []byte(strings.Join(wl, "\n")+"\n"), 0o644); err != nil {
